@@ -43,11 +43,13 @@ UNDER_ALLOC = re.compile(r'^(operator new|cocls::\w+::alloc)$')
 UNDER_FREE = re.compile(r'^(operator delete|cocls::\w+::dealloc)$')
 
 
-def _size_arg(e, free=False):
+def _size_arg(e, free=False, f=None):
     a = e.get('args') or []
-    if free:
-        return a[1].get('path') if len(a) > 1 else None
-    return a[0].get('path') if a else None
+    p = (a[1].get('path') if len(a) > 1 else None) if free else (a[0].get('path') if a else None)
+    if f is not None and p:
+        from ..core import local_env, subst_path
+        p = subst_path(p, local_env(f))        # const std::size_t total = sz + sizeof(T);
+    return p
 
 
 def trailers(ctx, db):
@@ -124,8 +126,8 @@ def trailers(ctx, db):
         if g is None:
             continue
         d = [e for e in g.events() if e.k == 'call' and UNDER_FREE.match(norm(e.get('callee') or '')) and not norm(e['callee']).startswith('cocls::promise_extra_storage')]
-        ok = len(a) == 1 and len(d) == 1 and lf(_size_arg(a[0])) is not None and lf(_size_arg(a[0])) == lf(_size_arg(d[0], free=True))
-        ctx.ob(rid, g, g['key'], ok, 'promise_extra_storage hands back the size it requested (%s vs %s)' % (_size_arg(a[0]) if a else None, _size_arg(d[0], True) if d else None),
+        ok = len(a) == 1 and len(d) == 1 and lf(_size_arg(a[0], f=f)) is not None and lf(_size_arg(a[0], f=f)) == lf(_size_arg(d[0], free=True, f=g))
+        ctx.ob(rid, g, g['key'], ok, 'promise_extra_storage hands back the size it requested (%s vs %s)' % (_size_arg(a[0], f=f) if a else None, _size_arg(d[0], True, f=g) if d else None),
                desc='promise_extra_storage::dealloc passes a different size than alloc requested', inst=g['inst'])
 
 
@@ -216,9 +218,10 @@ def pairing(ctx, db):
         bad = None
         for tr in [t for t in T.traces(f) if live(t)]:
             flag = None
-            for it in tr:
-                if it.k == 'branch' and re.fullmatch(r'\*\(local:\w+\)', it.path or ''):
-                    flag = bool(it.val)
+            for i_, it in enumerate(tr):
+                nt = null_test(tr, i_) if it.k == 'branch' else None
+                if nt and re.fullmatch(r'\*\(local:\w+\)', nt[0] or ''):
+                    flag = bool(nt[1])
             dels = [it for it in tr if it.k == 'call' and norm(it.get('callee')) == 'operator delete']
             if flag is None or (flag and len(dels) != 1) or (not flag and dels):
                 bad = bad or 'delete does not happen exactly on the flag-set edge'
@@ -343,7 +346,13 @@ def routing(ctx, db):
     seen = set()
     for f in db.need('cocls::custom_allocator_base::operator new'):
         cs = [e for e in f.events() if e.k == 'call' and norm(e.get('callee') or '').endswith('::alloc')]
-        ok = len(cs) == 1 and (cs[0].get('args') or [{}])[0].get('path') == 'param:sz' and cs[0].get('recv') in ('param:storage', None) and cs[0].get('use') == 'return'
+        rets = [e for e in f.events() if e.k == 'return']
+        alloc_param = next(('param:' + p_['name'] for p_ in f['params'] if 'Allocator' in p_['type'] or p_['type'].rstrip().endswith('&') and p_['name'] in ('storage', 'allocator', 'alloc')), None)
+        def _from_alloc(r):
+            o = value_origin(f, f.ev(r['ret_ev'])) if r.get('ret_ev') is not None and f.ev(r['ret_ev']) is not None else value_origin(f, r.get('path') or '')
+            return o is not None and cs and o.get('id') == cs[0].get('id')
+        ok = len(cs) == 1 and (cs[0].get('args') or [{}])[0].get('path') == 'param:sz' and (cs[0].get('recv') is None or re.fullmatch(r'param:\w+', cs[0].get('recv') or '')) and \
+            (cs[0].get('use') == 'return' or (len(rets) == 1 and _from_alloc(rets[0])))
         k = (f['key'], ok)
         if k in seen:
             continue
@@ -366,17 +375,21 @@ def buffer_storage(ctx, db):
     T = Tracer(db, depth=0)
     for f in db.need('cocls::reusable_buffer_storage::alloc')[:1]:
         bad = None; ng = nk = 0
-        d = next((e for e in f.events() if e.k == 'decl' and e.get('var') == 'items'), None)
+        CEIL = r'\(\(\(param:sz\+(local:\w+|sizeof\(.*\))\)-1\)/(local:\w+|sizeof\(.*\))\)'
+        d = next((e for e in f.events() if e.k == 'decl' and re.fullmatch(CEIL, re.sub(r'\s+', '', e.get('init') or ''))), None)
         ini = re.sub(r'\s+', '', (d or {}).get('init') or '')
-        if d is None or not re.fullmatch(r'\(\(\(param:sz\+(local:itemsz|sizeof\(.*\))\)-1\)/(local:itemsz|sizeof\(.*\))\)', ini):
+        m0 = re.fullmatch(CEIL, ini) if d is not None else None
+        if d is None or m0.group(1) != m0.group(2):
             bad = 'the item count is not ceil(sz / itemsize): %s' % ini
+        cnt = 'local:' + d['var'] if d is not None else 'local:items'
         for tr in [t for t in T.traces(f) if live(t)]:
             small = None
             for it in tr:
                 if it.k == 'branch':
-                    m = re.fullmatch(r'\(call\(std::vector::size\) (<|>=|<=|>) local:items\)', it.path or '')
-                    if m:
-                        o = m.group(1)
+                    m = re.fullmatch(r'\(call\(std::vector::size\) (<|>=|<=|>) %s\)' % re.escape(cnt), it.path or '')
+                    mr = re.fullmatch(r'\(%s (<|>=|<=|>) call\(std::vector::size\)\)' % re.escape(cnt), it.path or '')
+                    if m or mr:
+                        o = m.group(1) if m else {'<': '>', '>': '<', '<=': '>=', '>=': '<='}[mr.group(1)]
                         small = (o == '<' and it.val) or (o == '>=' and not it.val)
                         if o in ('<=', '>'):
                             small = 'shape'
@@ -385,7 +398,7 @@ def buffer_storage(ctx, db):
                 bad = bad or 'the growth test is not size() < items'
             elif small:
                 ng += 1
-                if len(rs) != 1 or (rs[0].get('args') or [{}])[0].get('path') != 'local:items':
+                if len(rs) != 1 or (rs[0].get('args') or [{}])[0].get('path') != cnt:
                     bad = bad or 'a too small buffer is not grown to the item count'
             else:
                 nk += 1
